@@ -4,7 +4,7 @@ CONSTANTS
   Seed = 1
   ReadImpl = "fixed"
   FaultKinds <- AllFaults
-  WithLarge = TRUE
+  WithLarge = FALSE
   TypeIds <- AllTypes
 INVARIANTS NeverReturnsOnFault AgreesWithParse RejectAgreesWithParse
 PROPERTIES RejectsFault AcceptsIntact Terminates
